@@ -428,10 +428,11 @@ impl BtcNet {
             };
         }
         let n = 1 + rng.below(2) as usize;
+        let value = if rng.chance(1, 12) { 0 } else { 25_0000_0000 };
         for _ in 0..n {
             let e = rng.pick(&self.wallet.entries);
             output.push(TxOut {
-                value: Amount::from_sat(25_0000_0000),
+                value: Amount::from_sat(value),
                 script_pubkey: ScriptBuf::from_bytes(e.script.clone()),
             });
         }
